@@ -28,8 +28,9 @@ DTYPE_DIM = z3.Function("dtype_dim", I, I)      # space dimension encoded in a d
 class SDt:
     """numpy dtype value, identified by an integer tag (two dtypes are equal iff their tags are)"""
 
-    def __init__(self, tag):
+    def __init__(self, tag, rec=None):
         self.tag = tag
+        self.rec = rec
 
     def sym_eq(self, E, other):
         if isinstance(other, SDt):
@@ -46,7 +47,12 @@ class SDt:
 
     def sym_getattr(self, run, attr):
         if attr == "fields":
-            return {"position": (SOpaque("subdtype", attrs={"shape": (DTYPE_DIM(self.tag),)}), None)}
+            d = {"position": (SOpaque("subdtype", attrs={"shape": (DTYPE_DIM(self.tag),)}), None)}
+            if self.rec is not None and "amplitudes" in self.rec.layout:
+                d["amplitudes"] = (SOpaque("subdtype", attrs={"shape": (self.rec.layout["amplitudes"][1],)}), None)
+            return d
+        if attr == "names" and self.rec is not None:
+            return tuple(self.rec.names())
         return _MISSING
 
 
@@ -70,7 +76,7 @@ def _patch_engine_getattr():
 
     def getattr2(self, run, obj, attr, fr=None):
         if isinstance(obj, H.SRecRef) and attr == "dtype":
-            return SDt(H.heap_of(run).read("dtype_tag", obj.ref, sort=I))
+            return SDt(H.heap_of(run).read("dtype_tag", obj.ref, sort=I), obj)
         return orig(self, run, obj, attr, fr)
     E.Engine.getattr = getattr2
     _engine_getattr_patch_done = True
@@ -425,6 +431,11 @@ class RemoveSmallLoop(LoopSpec):
         idx = g["idx"]
         keep = (lambda j: view.radius(j) > mr) if mr is not None else (lambda j: z3.BoolVal(True))
         yield ("cursor and length", z3.And(it >= 0, it <= L0, n >= cur, n <= L0))
+        if mr is not None:
+            la = z3.Int("la")
+            allkeep = z3.ForAll([la], z3.Implies(z3.And(la >= 0, la < L0), keep(la)))
+            yield ("if every member is above the threshold nothing has been removed",
+                   z3.Implies(allkeep, z3.And(n == L0, z3.ForAll([k], z3.Implies(z3.And(k >= 0, k < n), idx(k) == k)))))
         yield ("members below the cursor are untouched", z3.ForAll([k], z3.Implies(z3.And(k >= 0, k < cur), z3.And(
             z3.Select(me.elems, k) == z3.Select(g["E0"], k), idx(k) == k))))
         yield ("members from the cursor on are exactly the kept originals, in order",
@@ -481,6 +492,9 @@ class RemoveSmall(Contract):
                  z3.And(z3.ForAll([k], z3.Implies(z3.And(k >= 0, k < n), z3.And(idx(k) >= 0, idx(k) < L0, view0.radius(idx(k)) > mr,
                                                                               z3.Select(em.elems, k) == z3.Select(E0, idx(k))))),
                         z3.ForAll([k, l], z3.Implies(z3.And(k >= 0, k < l, l < n), idx(k) < idx(l))))),
+                ("if every member is above the threshold the emulsion is unchanged",
+                 z3.Implies(z3.ForAll([l], z3.Implies(z3.And(l >= 0, l < L0), view0.radius(l) > mr)),
+                            z3.And(n == L0, z3.ForAll([k], z3.Implies(z3.And(k >= 0, k < n), z3.Select(em.elems, k) == z3.Select(E0, k)))))),
                 ("droplet data is not modified", frame_old_records(run, arrs0, lay)),
                 ("returns None", ret is None)]
 
